@@ -99,6 +99,19 @@ func (e *Engine) Validate(dnsNames []string, ipAddresses []net.IP, emailAddresse
 		return nil
 	}
 
+	// Like crypto/x509, refuse a DNS name that cannot be parsed as soon as any
+	// certificate in the chain has name constraints, even if none of them is a
+	// DNS constraint: relying parties reject such a certificate.
+	for _, name := range dnsNames {
+		if _, ok := domainToReverseLabels(name); !ok {
+			return ConstraintError{
+				Type:   "DNS name",
+				Name:   name,
+				Detail: fmt.Sprintf("cannot parse dnsName %q", name),
+			}
+		}
+	}
+
 	// With constraints on more than one certificate, the names must be valid
 	// for each one of them.
 	if len(e.perCert) > 0 {
